@@ -501,9 +501,23 @@ func rndContent(rnd *rand.Rand) string {
 		sb.WriteString("\xef\xbb\xbf")
 	}
 	n := rnd.Intn(12)
+	if rnd.Intn(6) == 0 {
+		// a long run of short neighbouring lines: whatever block of the file a retrieval reads, some line straddles its end
+		n = 250 + rnd.Intn(200)
+	}
 	for i := 0; i < n; i++ {
 		var line string
-		switch rnd.Intn(9) {
+		k := rnd.Intn(11)
+		if n > 100 && rnd.Intn(8) != 0 {
+			k = 2
+		}
+		switch k {
+		case 9:
+			// a '#' in front of what looks like a cosmetic marker: the marker is searched at the first '#' only
+			line = []string{"0.0.0.0 legacy" + fmt.Sprint(i) + ".example #old##entry", "||page" + fmt.Sprint(i) + ".example/p#top##anchor",
+				"! see http://x.example/#@#y", "||q" + fmt.Sprint(i) + ".example/#/path#@#frag"}[rnd.Intn(4)]
+		case 10:
+			line = "0.0.0.0 host-" + fmt.Sprintf("%04d", i) + ".example.org"
 		case 0:
 			line = ""
 		case 1:
